@@ -109,6 +109,42 @@ def run(tier, seed):
             if not ok:
                 rep.fail({"class": "badpath", "what": name}, ["crash" if hexec.is_crash(o) else "no-failure"],
                          {"kind": "badpath", "what": name}, "%s path: %s" % (name, o))
+        # permissions, exercised under an unprivileged uid (checks may run as root, for whom every file is readable):
+        # a read-only file must assemble (the library needs no write access), an unreadable one must give EXIT_FAILURE
+        if os.geteuid() == 0:
+            pd = os.path.join(tmp, "perm")
+            os.makedirs(pd)
+            d = tmp
+            while d.startswith(os.path.dirname(hexec.TMPROOT)) and d != "/":
+                try:
+                    os.chmod(d, os.stat(d).st_mode | 0o055)
+                except OSError:
+                    pass
+                d = os.path.dirname(d)
+            ro, no = os.path.join(pd, "readonly.asm"), os.path.join(pd, "unreadable.asm")
+            for pth, mode in ((ro, 0o444), (no, 0o000)):
+                with open(pth, "w") as f:
+                    f.write("mov rax, 0x2a\nret\n")
+                os.chmod(pth, mode)
+            os.chmod(pd, 0o755)
+            hs = []
+            for pth in (ro, no):
+                hs.append("u65534\tc256:p:cc\tf%s" % hexec.esc(pth))
+                hs.append("u65534\tc256:p:cc\tn4:%s" % hexec.esc(pth))
+            res = hexec.run(hs, variant="wrap", dangerous=True)
+            for j, o in enumerate(res):
+                rep.evaluations += 1
+                want = 0 if j < 2 else 1
+                name = "read-only" if j < 2 else "unreadable"
+                if hexec.is_crash(o) or not o[0].startswith("u:65534"):
+                    rep.extra["permission_cases"] = "could not drop privileges: %s" % (o[:1],)
+                    continue
+                a = hexec.Asm(next(x for x in o if x[:2] in ("f:", "n:")))
+                rep.outcomes.add((name, a.ret))
+                if a.ret != want or (want == 0 and a.hex != "b82a000000c3"):
+                    rep.fail({"class": "permission", "what": name}, ["wrong-result"], {"kind": "badpath", "what": name},
+                             "%s file under uid nobody: %s" % (name, o))
+            rep.bounds["permission_cases"] = 4
         # binary output
         line10 = "mov rax, 0x1122334455667788\n"
         for off in (0, 1, 17, 6000, 6001, 12500):
